@@ -26,6 +26,7 @@ func runC19(s *Sim) {
 	for i, id := range ids {
 		m := &member{s: s, id: i, rx: make(chan []byte, 4096), fail: make(chan struct{}), closed: make(chan struct{}),
 			cfg: transport.DialConfig{EncodingName: transport.EncodingNameProtobuf, TransportID: id, TransportGroupID: "grp", TransportGroupTotalCount: nMem, TransportGroupIndex: i}}
+		m.unrel = t.Bool("member-has-unreliable-side", 2, 3)
 		tm[id] = m
 		mem[id] = m
 	}
@@ -96,6 +97,8 @@ func runC19(s *Sim) {
 		payload string
 		expect  transport.TransportID
 		exact   bool
+		// unreliable: written through AsUnreliable()
+		unreliable bool
 	}
 	var writes []*wrec
 	var delivered []string
@@ -137,6 +140,21 @@ func runC19(s *Sim) {
 			}})
 		}
 		if s.Idle(ctlT) {
+			acts = append(acts, Action{Name: "unreliable-write", W: 3, Do: func() {
+				// the unreliable side is the currently selected member's
+				n++
+				p := fmt.Sprintf("u|%d", n)
+				w := &wrec{payload: p, expect: cur, exact: known && mode != "last-used", unreliable: true}
+				w.op = &Op{Name: "AsUnreliable+Write", Args: p, Run: func(ctx context.Context) (any, error) {
+					u, ok := tr.AsUnreliable()
+					if !ok || u == nil {
+						return "none", nil
+					}
+					return "written", u.Write([]byte(p))
+				}}
+				writes = append(writes, w)
+				s.Start(ctlT, w.op)
+			}})
 			acts = append(acts, Action{Name: "inspect", W: 2, Do: func() {
 				which := t.Choose("inspect-which", 3)
 				s.Start(ctlT, &Op{Name: []string{"NegotiationParams", "AsUnreliable", "Name"}[which], Run: func(ctx context.Context) (any, error) {
@@ -248,9 +266,32 @@ func runC19(s *Sim) {
 		for _, b := range m.accepted {
 			accepted[string(b)] = append(accepted[string(b)], id)
 		}
+		for _, b := range m.unrelAccepted {
+			accepted[string(b)] = append(accepted[string(b)], id)
+		}
 	}
 	s.mu.Unlock()
 	for _, w := range writes {
+		if w.unreliable {
+			if !w.op.harvested || w.op.Panic != "" {
+				continue
+			}
+			a := accepted[w.payload]
+			res, _ := w.op.Res.(string)
+			s.mu.Lock()
+			hasSide := mem[w.expect] != nil && mem[w.expect].unrel
+			s.mu.Unlock()
+			switch {
+			case !w.exact:
+			case res == "none" && hasSide:
+				s.Violate("C19.unreliable-side", "missing", "AsUnreliable reported no unreliable side although the selected member %q has one", w.expect)
+			case res == "written" && w.op.Err == nil && (len(a) != 1 || a[0] != w.expect):
+				s.Violate("C19.unreliable-side", "routing", "a datagram written through AsUnreliable() went to %v while the scheduler had selected %q", a, w.expect)
+			case res == "written" && !hasSide:
+				s.Violate("C19.unreliable-side", "phantom", "AsUnreliable reported an unreliable side although the selected member %q has none", w.expect)
+			}
+			continue
+		}
 		if !w.op.harvested {
 			s.Violate("C19.write-blocks", "", "Write(%s) did not return", w.payload)
 			continue
